@@ -379,6 +379,7 @@ type Contract struct {
 	Requires []*Clause
 	Ensures  []*Clause
 	Assumes  []*Clause // unchecked assumptions on entry (listed)
+	Defines  []*Clause // definitional ensures: assumed at call sites, not checked on the body (listed as trusted)
 	Records  []*Clause // ghost records: Text = ghost var name, E = value (post-state), applied at call sites
 	Modifies []string  // raw items: "T.f", "x.f", "*" , "ghost name"
 	Loops    map[int]*LoopSpec
@@ -575,7 +576,7 @@ func (cs *ContractSet) parseContractFile(pkgPath, file string) {
 			if cur != nil {
 				cur.Props = append(cur.Props, strings.Fields(rest)...)
 			}
-		case "requires", "ensures", "assume":
+		case "requires", "ensures", "assume", "defines":
 			if cur == nil {
 				errf(ln, "%s outside func block", word)
 				continue
@@ -590,6 +591,9 @@ func (cs *ContractSet) parseContractFile(pkgPath, file string) {
 				cur.Requires = append(cur.Requires, &Clause{Text: rest, E: e, N: len(cur.Requires) + 1})
 			case "ensures":
 				cur.Ensures = append(cur.Ensures, &Clause{Text: rest, E: e, N: len(cur.Ensures) + 1})
+			case "defines":
+				cur.Defines = append(cur.Defines, &Clause{Text: rest, E: e, N: len(cur.Defines) + 1})
+				cs.RawScan = append(cs.RawScan, "defines in "+cur.Key+": "+rest)
 			case "assume":
 				cur.Assumes = append(cur.Assumes, &Clause{Text: rest, E: e, N: len(cur.Assumes) + 1})
 				cs.RawScan = append(cs.RawScan, "assume in "+cur.Key+": "+rest)
@@ -656,7 +660,7 @@ func (cs *ContractSet) parseContractFile(pkgPath, file string) {
 			default:
 				errf(ln, "unknown loop clause %q", kind)
 			}
-		case "trusted", "safety", "nopanic", "overflow", "pure", "strings", "atomic-once", "replay", "note", "inline", "nomodel", "constructor", "requires-lock", "holds-lock", "frame", "uses":
+		case "trusted", "safety", "nopanic", "overflow", "pure", "strings", "atomic-once", "replay", "note", "inline", "nomodel", "constructor", "requires-lock", "holds-lock", "frame", "uses", "refines":
 			if cur != nil {
 				if rest == "" {
 					rest = "yes"
